@@ -41,7 +41,8 @@
                   left padding in the first, no right padding in the last column),
                   ColMin(j) = max over the cells shown in column j (header if show_header,
                   footer if show_footer, every row) of MinW(cell), at least 1
-     columns      max over the items (1 when empty)
+     columns      max over the items (1 when empty): Columns chooses how many columns to lay
+                  out, the narrowest arrangement is a single column without padding
      tree         max over displayed nodes of 4 * depth + MinW(label); children of a node that is
                   not expanded are not displayed
      rule         1 (2 if a wide character occurs in its characters or title), + 4 with a title
@@ -59,7 +60,8 @@
          Columns with a width, are not "free to wrap": InScope is FALSE;
      C6  a text leaf with overflow "ignore" or no_wrap is in scope only beneath a container that
          crops what it frames (panel, padding, table cell, columns item, tree label);
-     C7  the structural minimum of a text that contains no character at all is still 1.
+     C7  the structural minimum of a text that contains no character at all is still 1;
+     C8  Console.render does not cast twice: cast(cast(x)) is not a renderable and is never built.
    Exact where the statement speaks: padding/borders are exactly those the options ask for
    (pad_edge, collapse_padding, show_edge, box = None are honoured, not over-approximated), a
    panel title does not count (not a column), collapsed tree nodes do not count (not rendered). *)
